@@ -102,7 +102,7 @@ func init() {
 		Entry{Name: "tkn20.AttributeKey.Decrypt", Group: "tkn20", Cost: 8, NValid: nAll, LenFields: lf,
 			Call:  func(b []byte) { _, _ = ak.Decrypt(b) },
 			Valid: validCt},
-		Entry{Name: "tkn20.Attributes.CouldDecrypt", Group: "tkn20", NValid: nAll, LenFields: lf,
+		Entry{Name: "tkn20.Attributes.CouldDecrypt", Group: "tkn20", Cost: 2, NValid: nAll, LenFields: lf,
 			Call:  func(b []byte) { _ = attrs.CouldDecrypt(b) },
 			Valid: validCt},
 		Entry{Name: "tkn20.Policy.ExtractFromCiphertext", Group: "tkn20", NValid: nAll, LenFields: lf,
